@@ -80,6 +80,12 @@ static void exportCase(uint64_t idx, Rng &rng, CaseResult &r) {
     for (size_t p = 0; p < c.pinXOffsets_.size(); ++p)
       if (rng.chance(0.2)) { c.pinXOffsets_[p] = (int)rng.range(-3000, 3000); c.pinYOffsets_[p] = (int)rng.range(-3000, 3000); }
   }
+  if (rng.chance(0.05)) {  // one very large net (clock / reset like)
+    int deg = (int)rng.range(200, 1200);
+    std::vector<int> cells, xo, yo;
+    for (int k = 0; k < deg; ++k) { int cc = (int)rng.range(0, c.nbCells() - 1); cells.push_back(cc); xo.push_back((int)rng.range(0, std::max(0, c.cellWidth_[cc]))); yo.push_back((int)rng.range(0, std::max(0, c.cellHeight_[cc]))); }
+    c.addNet(cells, xo, yo, 1.0f);
+  }
   if (r.needSample()) r.sample = vf::J::obj().kv("what", "exportIspd -> coloquinte.py read_ispd round trip").kraw("circuit", circuitJson(c)).str();
   if (r.dumpOnly) return;
   std::string base = scratchDir() + "/p" + std::to_string((long)getpid()) + "_c" + std::to_string((unsigned long long)idx);
